@@ -133,11 +133,14 @@ def tapes(max_size=6):
 
 
 def cycle_tape(i):
-    """Deterministic tape for enumerated phases: every third case is re-represented, cycling through the alternatives."""
-    if i % 3:
+    """Deterministic tape for enumerated phases: about every third case is re-represented (a scramble of the case number
+    rather than a stride, so that the choice is not correlated with other options cycled by the generators)."""
+    import zlib
+    z = zlib.crc32(b'rep%d' % i)
+    if z % 3:
         return []
-    j = i // 3
-    return [1 + j % 3, 1 + (j // 3) % 3, 1 + (j // 9) % 3, j % 4]
+    z >>= 4
+    return [1 + z % 3, 1 + (z >> 3) % 3, 1 + (z >> 6) % 3, (z >> 9) % 4]
 
 
 def with_rep(gen):
